@@ -249,6 +249,17 @@ func c09ReqHeaderAlts(full bool) []string {
 		}
 	}
 	out = append(out, "Cookies", "X-Cookie", "authorizations", "Sec-WebSocket-Key1")
+	// names that are banned only as RESPONSE headers, in exactly the spellings the response side uses: harmless in a
+	// request, and a verdict remembered by name alone would carry over from one role to the other
+	st := map[string]bool{}
+	for _, n := range refpolicy.StatefulRequestNames() {
+		st[strings.ToLower(n)] = true
+	}
+	for i, n := range refpolicy.UncachedNames() {
+		if sp := c09Spellings(n); !st[strings.ToLower(n)] && (full || i%3 == 0) {
+			out = append(out, sp[i%len(sp)])
+		}
+	}
 	return out
 }
 
@@ -263,6 +274,19 @@ func c09RespHeaderAlts(full bool) []string {
 		}
 	}
 	out = append(out, "Set-Cookie3", "x-upgrade", "Connections", "TRAILERS", "Keep-Alive-X", "Authentication")
+	// ... and the names banned only as REQUEST headers, in the request side's spellings: harmless in a response
+	un := map[string]bool{}
+	for _, n := range refpolicy.UncachedNames() {
+		un[strings.ToLower(n)] = true
+	}
+	for i, n := range refpolicy.StatefulRequestNames() {
+		if sp := c09Spellings(n); !un[strings.ToLower(n)] {
+			out = append(out, sp[i%len(sp)])
+			if full {
+				out = append(out, sp[(i+2)%len(sp)])
+			}
+		}
+	}
 	return out
 }
 
